@@ -10,6 +10,8 @@ NOTIFY = r'^std::atomic<bool>::notify_all\(\)$'
 QG = {'QINST': '_ZN5cocls10coro_queue8instanceE', 'TLS_GUARD': '__tls_guard'}
 SNAP = ['CV_F_NODE_SNAPSHOT(n) (gh_push_handle = ((AWT *)(n))->_handle_addr, gh_push_fn = (void *)((AWT *)(n))->_resume_fn, gh_push_next = ((AWT *)(n))->_next)']
 LIBS = ['rt_core.c', 'rt_atomic_protF.c']
+FC_READY = r'^cocls::future_common::ready\(\) const$'
+CO_SYNC = r'^cocls::co_awaiter<cocls::future<int> >::sync\(\)$'
 AW_SUB = r'^cocls::awaiter::subscribe\(std::atomic<cocls::awaiter\*>&\)$'
 def unit(name, alias, rx, names=None, names_opt=None, boundary=(), **kw):
     nm = {alias: rx}; nm.update(names or {})
@@ -21,6 +23,8 @@ def unit(name, alias, rx, names=None, names_opt=None, boundary=(), **kw):
 UNITS = [
     unit('subscribe_check_ready', 'aw_subscribe_check_ready', r'^cocls::awaiter::subscribe_check_ready\(std::atomic<cocls::awaiter\*>&, cocls::awaiter&\)$', names_opt={'aw_subscribe': AW_SUB}, loop_contracts=True, defines=SNAP),
     unit('resume_chain_set_ready', 'aw_resume_chain_set_ready', r'^cocls::awaiter::resume_chain_set_ready\(std::atomic<cocls::awaiter\*>&, cocls::awaiter&\)$', names_opt={'aw_resume_chain_lk': RC_LK}, boundary=[RC_LK]),
+    dict(unit('ab_ready', 'ab_ready', r'^cocls::future<int>::awaitable_bool::await_ready\(\)$', names_opt={'ab_fc_ready_stub': FC_READY, 'ab_sync_stub': CO_SYNC}, boundary=[FC_READY, CO_SYNC]), lib=['rt_core.c', 'rt_atomic_seq.c'], types=dict(TYPES, ABOOL='cocls::future<int>::awaitable_bool', FUT='cocls::future<int>')),
+    dict(unit('ab_bool', 'ab_bool', r'^cocls::future<int>::awaitable_bool::operator bool\(\) const$', names_opt={'ab_fc_ready_stub': FC_READY, 'ab_sync_stub': CO_SYNC}, boundary=[FC_READY, CO_SYNC]), lib=['rt_core.c', 'rt_atomic_seq.c'], types=dict(TYPES, ABOOL='cocls::future<int>::awaitable_bool', FUT='cocls::future<int>')),
     unit('resume', 'aw_resume', r'^cocls::awaiter::resume\(\)$'),
     unit('co_await_ready', 'co_await_ready', CO + r'await_ready\(\)$', defines=SNAP),
     unit('co_await_suspend', 'co_await_suspend', CO + r'await_suspend\(std::__n4861::coroutine_handle<void>\)$', names={'aw_subscribe_check_ready': SCR}, names_opt={'aw_subscribe': AW_SUB}, loop_contracts=True, defines=SNAP),
